@@ -373,7 +373,7 @@ impl<'a> CodeCodec<'a> {
         match self.cl.classify(ty) {
             CHead::Bad(w) => Err(DecErr::Reject(format!("bad type: {w}"))),
             CHead::Ident(n) => Err(DecErr::Reject(format!("free identifier {n}"))),
-            CHead::Other(p) => Err(DecErr::Opaque(p)),
+            CHead::Other(p, _) => Err(DecErr::Opaque(p)),
             CHead::Phantom(_) => Ok(()),
             CHead::Box(t) => self.roundtrip(&t, input, out),
             CHead::Prim(p) => self.prim(&p, input, out),
@@ -600,7 +600,7 @@ impl<'a> CodeCodec<'a> {
                     _ => Err(DecErr::Reject("compact over an enum".into())),
                 }
             }
-            CHead::Other(p) => Err(DecErr::Opaque(p)),
+            CHead::Other(p, _) => Err(DecErr::Opaque(p)),
             _ => Err(DecErr::Reject(format!("compact over unsupported code type {}", ts(inner)))),
         }
     }
